@@ -175,8 +175,9 @@ def check(ctx):
         c.tlc_must_pass(ctx, "model-full", "Remote.tla", "Remote_thorough_full.cfg", timeout=3000)
     # (b) scenario emission
     hists = []
-    plan = [("Remote_emit_quick.cfg", 1150), ("Remote_emit_multi.cfg", 250), ("Remote_emit_onepass.cfg", 250),
-            ("Remote_emit_numeric.cfg", 400)] if quick else [("Remote_emit_numeric4.cfg", 3000),
+    plan = [("Remote_emit_quick.cfg", 900), ("Remote_emit_multi.cfg", 200), ("Remote_emit_onepass.cfg", 200),
+            ("Remote_emit_numeric.cfg", 400), ("Remote_emit_plugin.cfg", 150)] if quick else [("Remote_emit_numeric4.cfg", 3000),
+        ("Remote_emit_plugin.cfg", 3000),
         ("Remote_emit_full2.cfg", 8000), ("Remote_emit_quick.cfg", 6000), ("Remote_emit_core4.cfg", 6000), ("Remote_emit_multi.cfg", 3000),
         ("Remote_emit_onepass.cfg", 3000)]
     emitted = 0
@@ -184,7 +185,7 @@ def check(ctx):
         res = c.tlc_must_pass(ctx, "emit-" + cfg.split("_emit_")[1].split(".")[0], "Remote.tla", cfg, timeout=3000)
         hs = letters(res)
         emitted += len(hs)
-        if "numeric" in cfg:
+        if "numeric" in cfg or "plugin" in cfg:
             rnd.shuffle(hs)
             hists += hs[:cap]
         else:
